@@ -30,7 +30,8 @@ def cfg_for(states, defaults, nodelay=False):
             "peers": peers,
             "apps": [{"id": 3, "acct": True, "peers": [0, 1, 2]},       # A0: all three peers, own realm
                      {"id": 4, "auth": True, "peers": [2], "realms": [REALM2]},   # A1: peer 3, own realm + an additional realm
-                     {"id": 5, "auth": True, "peers": []}]}             # A2: no peers of its own: default peers only
+                     {"id": 5, "auth": True, "peers": []},              # A2: no peers of its own: default peers only
+                     {"id": 3, "acct": True, "peers": [0]}]}            # A3: a second instance of A0's application id, peer 1 only
 
 
 def eligible(cfg, app_i, realm):
@@ -80,7 +81,7 @@ def work_config(args):
                 calls.append([p.node_name for p in peers])
                 return peers[-1]
             nw.node.peer_route_select_func = cb
-        for app_i, realmkey in itertools.product(range(3), ("own", "r2", "foreign")):
+        for app_i, realmkey in itertools.product(range(len(cfg["apps"])), ("own", "r2", "foreign")):
             realm = {"own": env.NODE_REALM, "r2": REALM2, "foreign": "nowhere.example"}[realmkey]
             n += 1
             before = {i: len(s.out) for i, s in by_peer.items()}
@@ -367,7 +368,7 @@ def run(tier):
                     "traces_validated_against_impl": len(jobs) + execs + totc["transitions"],
                     "schedules": execs, "configurations": len(jobs), "distinct_outcomes_total": outcomes,
                     "explanation": "A: every vector of 3 peers x {none, connected, ready, waiting DWA, disconnecting} x 4 default-peer patterns x {least-used, custom "
-                                   "callback} (quick: callback on a VERIF_SEED-rotated half), 9 send_requests (3 applications x 3 realms) each, judged against "
+                                   "callback} (quick: callback on a VERIF_SEED-rotated half), 12 send_requests (4 applications, two of them instances of one application id, x 3 realms) each, judged against "
                                    "eligibility computed from the configuration. B: 2..3 concurrent send_request callers, answers forward/reverse, duplicated, "
                                    "late, unknown ids, on the wrong connection; every schedule within the preemption bound at line granularity. C: BFS over histories in which "
                                    "three ready peers receive DPR / are lost / await a DWA / reconnect between send_requests; every request written must target a "
